@@ -368,6 +368,8 @@ pub fn plan(tier: Tier) -> Plan {
     }));
     p.must_be_nonzero = vec!["fanout_cases".into(), "label_cases".into()];
     p.rule.push_str(super::seqread::RULE);
+    p.rule.push_str(super::seqread::RULE_CONCURRENT);
+    super::seqread::add_concurrent_unit(&mut p, super::seqread::Class::Lookup);
     super::seqread::add_units(&mut p, super::seqread::Class::Lookup, if tier.thorough() { 5 } else { 4 });
     p
 }
